@@ -7,6 +7,7 @@ package checks
 // (C07) the same audit after clean and crash-like restarts.
 
 import (
+	"os"
 	"fmt"
 	"math/rand"
 	"sort"
@@ -39,9 +40,9 @@ func init() {
 			Assumptions: []string{"the heap (plan-level sequential scan) is the reference for index audits; the model separately checks the heap", "NULL keys are not generated (listed finding of C06)", "hash index: below its fixed capacity, point lookups only, no UPDATE"},
 			NumCases: func(env *core.Env) int {
 				if env.Thorough() {
-					return 1200
+					return 2400
 				}
-				return 96
+				return 288
 			},
 			RunCase:     func(env *core.Env, idx int) *core.CaseResult { return idxHistCase(env, idx, id) },
 			Witness:     runSQLWitness,
@@ -299,6 +300,9 @@ func idxHistCase(env *core.Env, idx int, prop string) *core.CaseResult {
 	}
 	path := fmt.Sprintf("%s/ih_%d", env.TmpDir, idx)
 	sqlx.RemoveFiles(path)
+	if os.Getenv("VERIF_VERBOSE") != "" {
+		fmt.Fprintf(os.Stderr, "idxHistCase %s idx=%d tables=%+v memKB=%d file=%v clean=%v conc=%v steps=%d\n", prop, idx, tds, p.MemKB, p.File, p.CleanShutdown, conc, p.Steps)
+	}
 	var h *crashlab.History
 	var fatal string
 	if conc {
@@ -321,13 +325,16 @@ func idxHistCase(env *core.Env, idx int, prop string) *core.CaseResult {
 		if p.CleanShutdown {
 			kind = "clean shutdown"
 		}
-		var db *sqlx.DB
 		rtags := []string{"restart", strings.ReplaceAll(kind, " ", "-")}
 		if anyHash && !p.CleanShutdown {
 			rtags = append(rtags, "hash-index-crash-restart")
 		}
-		if msg, panicked := guarded(func() { db = sqlx.Open(path, p.MemKB, sqlx.Options{File: true}) }); panicked {
-			res.Violate("restart-panic", append(rtags, kindTags...), map[string]any{"seed": env.Seed, "idx": idx, "table": tds}, "reopen after %s panicked: %s", kind, msg)
+		db, failure, hung := crashlab.OpenWithTimeout(path, p.MemKB)
+		if hung {
+			res.RestartChild = true
+			res.Violate("restart-hang", append(rtags, kindTags...), map[string]any{"seed": env.Seed, "idx": idx, "table": tds}, "reopen after %s: %s", kind, failure)
+		} else if failure != "" {
+			res.Violate("restart-panic", append(rtags, kindTags...), map[string]any{"seed": env.Seed, "idx": idx, "table": tds}, "reopen after %s: %s", kind, failure)
 		} else {
 			res.Add("restarts_audited", 1)
 			res.Add("restarts_"+strings.ReplaceAll(kind, " ", "_"), 1)
